@@ -130,6 +130,10 @@ def run_script(exe, lines, wd, name="s", hang=60, timeout=900, env_extra=None, p
             attributed = any(b > a for a, b in zip(lcs, lcs[1:]))
             only_leaks = rc != 0 and "LeakSanitizer" in (err or "") and "ERROR: AddressSanitizer" not in (err or "") and "runtime error" not in (err or "") and attributed
             complete = ended and (rc == 0 or only_leaks)
+            fdp = [e["what"] for e in events if e.get("e") == "FdProblem"]
+            if fdp:       # a leaked descriptor / a caller's descriptor closed by the library: the run does not count as clean
+                complete = False
+                err = (err or "") + "\nFdProblem: %s (%d occurrence(s))" % (fdp[0], len(fdp))
         else:
             with open(tp, "rb") as f:
                 try:
@@ -141,7 +145,7 @@ def run_script(exe, lines, wd, name="s", hang=60, timeout=900, env_extra=None, p
 
 
 def crash_summary(run):
-    m = re.search(r"(ERROR: AddressSanitizer[^\n]*|runtime error:[^\n]*|ERROR: LeakSanitizer[^\n]*|WARNING: ThreadSanitizer[^\n]*|Assertion[^\n]*)", run.stderr or "")
+    m = re.search(r"(ERROR: AddressSanitizer[^\n]*|runtime error:[^\n]*|ERROR: LeakSanitizer[^\n]*|WARNING: ThreadSanitizer[^\n]*|Assertion[^\n]*|FdProblem[^\n]*)", run.stderr or "")
     last = run.events[-1] if run.events else {}
     return "rc=%s last_event=%s %s" % (run.rc, last.get("e"), m.group(1) if m else (run.stderr or "")[-300:].replace("\n", " | "))
 
